@@ -7,23 +7,30 @@ import subprocess
 from . import common
 from .common import cZ, cstr, cbool, clist, copt, cpair
 
-NAMES = ["a", "b", "c", "d", "e"]
-VALS = [-8, 0, 4, 8, 12, 16]                 # eighths: -1.0, 0.0, 0.5, 1.0, 1.5, 2.0
-STRS = ["x", "y", "xy", "abc"]
+from fractions import Fraction
+
+BASE_NAMES = ["a", "b", "c", "d", "e"]
+ODD_NAMES = ["_p", "a_b"]                       # private-looking / underscore names must be stored and queryable
+SHADOW_NAMES = ["name", "condition", "query"]   # attributes of NamedQuery: shadow a path segment after the first
+# numbers: every distinct value has ONE spelling per database (so set de-duplication by SQL text = by value)
+NUM_SPELLINGS = [[-1.0], [0, 0.0, False], [0.5], [1, 1.0, True], [1.5], [2, 2.0], [0.125], [0.375], [-0.625], [0.1],
+                 [1e-07], [1e+20, 10 ** 20], [3], [2.675], [-7]]
+STRS = ["x", "y", "xy", "abc", "X", "Xy", "a_c", "50%", "it's"]
 CLS = ["A", "B", "C"]
 CLASS_MODULE = "c10_classes"
-FIT_NAMES = ["fit", "fita", "fitb", "grid", "gridx", "run", "runfit", "alpha"]
-TAGS = ["t0", "t1", "t2", "tag"]
+FIT_NAMES = ["fit", "fita", "fitb", "grid", "gridx", "run", "runfit", "alpha", "Fit", "fit_a", "n1"]
+TAGS = ["t0", "t1", "t2", "tag", "T1"]
 PREFIXES = ["p", "p/q", "out"]
 INFO_KEYS = ["k", "m", "o"]
 INFO_VALS = ["v", "w", "x"]
+MLLS = [-2.0, -0.5, 0.0, 0.5, 1.0, 2.5, 3.0, 0.1, 1e-07, 12345.678]
 SYMS = ["=", "<", "<=", ">", ">="]
 CMP_COQ = {"=": "CEq", "<": "CLt", "<=": "CLe", ">": "CGt", ">=": "CGe"}
 
-# which variant of the model describes the code under test: "current" (the pinned tree), "inv" / "slice"
-# (one of the proposed repairs applied), "repaired" (both).  The lead flips the default when fixes land.
-DEFAULT_VARIANT = "repaired"   # fixes f11f464 and 127fbf4 are applied in /repo
-LABEL_FN = {"current": "case_labels", "repaired": "case_labels_repaired", "inv": "case_labels_inv", "slice": "case_labels_slice"}
+# which variant of the model describes the code under test: "current" (the tree as it is), "repaired"
+# (proposed_fixes/C10-escape-string-constants.diff applied), "legacy" (before f11f464 / 127fbf4).
+DEFAULT_VARIANT = "current"   # Model.v `current`: fixes f11f464 and 127fbf4 applied; "repaired" adds the proposed quote escaping
+LABEL_FN = {"current": "case_labels", "repaired": "case_labels_repaired", "legacy": "case_labels_legacy"}
 
 KNOWN_CLASSES = {
     2: "inverted-named-in-junction",
@@ -32,6 +39,9 @@ KNOWN_CLASSES = {
     16: "not-of-info",
     32: "three-tables",
     256: "negated-attribute-null",
+    512: "like-semantics",
+    1024: "string-constant-unescaped",
+    2048: "path-segment-shadows-query-attribute",
 }
 
 
@@ -45,44 +55,82 @@ def class_path(name):
 # generator
 # ---------------------------------------------------------------------------
 
-def gen_leaf(rng):
+def gen_leaf(rng, dom):
     r = rng.random()
     if r < 0.6:
-        return {"v": rng.choice(VALS)}
+        return {"v": rng.choice(dom["nums"])}
     if r < 0.85:
-        return {"s": rng.choice(STRS)}
+        return {"s": rng.choice(dom["strs"])}
     return {"none": 1}
 
 
-def gen_obj(rng, depth):
+def gen_obj(rng, depth, dom):
     r = rng.random()
     if depth <= 0 or r < 0.42:
-        return gen_leaf(rng)
+        return gen_leaf(rng, dom)
     if r < 0.84:
-        names = rng.sample(NAMES, rng.randint(1, 3))
-        return {"cls": rng.choice(CLS), "kids": [[n, gen_obj(rng, depth - 1)] for n in names]}
+        names = rng.sample(dom["names"], rng.randint(1, 3))
+        return {"cls": rng.choice(CLS), "kids": [[n, gen_obj(rng, depth - 1, dom)] for n in names]}
     if r < 0.95:
         k = rng.randint(0, 3)
-        return {"cls": rng.choice(["list", "tuple"]), "kids": [[str(i), gen_obj(rng, depth - 1)] for i in range(k)]}
-    names = rng.sample(NAMES, rng.randint(1, 2))
-    return {"cls": "dict", "kids": [[n, gen_obj(rng, depth - 1)] for n in names]}
+        return {"cls": rng.choice(["list", "tuple"]), "kids": [[str(i), gen_obj(rng, depth - 1, dom)] for i in range(k)]}
+    names = rng.sample(dom["names"], rng.randint(1, 2))
+    return {"cls": "dict", "kids": [[n, gen_obj(rng, depth - 1, dom)] for n in names]}
+
+
+_DOMS = {}
+
+
+def dom_of(db):
+    d = _DOMS.get(id(db))
+    if d is None:       # a database that was not generated here (corpus / replay): derive a domain from it
+        nums, strs, names = [], [], []
+        def walk(o):
+            if "v" in o and o["v"] not in nums:
+                nums.append(o["v"])
+            if "s" in o and o["s"] not in strs:
+                strs.append(o["s"])
+            for n, c in o.get("kids", []):
+                if n not in names and not n.isdigit():
+                    names.append(n)
+                walk(c)
+        for f in db:
+            walk(f["inst"])
+        d = {"names": names or ["a"], "nums": nums or [1.0], "strs": strs or ["x"]}
+        _DOMS[id(db)] = d
+    return d
+
+
+def gen_domain(rng):
+    """Per-database value domain: attribute names, numbers (one spelling per value), strings."""
+    names = rng.sample(BASE_NAMES, 4)
+    if rng.random() < 0.4:
+        names.append(rng.choice(ODD_NAMES))
+    if rng.random() < 0.3:
+        names.append(rng.choice(SHADOW_NAMES))
+    nums = [rng.choice(sp) for sp in rng.sample(NUM_SPELLINGS, rng.randint(4, 7))]
+    strs = rng.sample(STRS, rng.randint(3, 5))
+    return {"names": names, "nums": nums, "strs": strs}
 
 
 def gen_db(rng, thorough, want_children=None, for_order=False):
     n = rng.randint(1, 12 if thorough else 8)
-    if rng.random() < 0.1:
+    if rng.random() < 0.04:
         n = 1
+    elif n == 1 and rng.random() < 0.7:
+        n = rng.randint(2, 6)
     fits = []
+    dom = gen_domain(rng)
     children = rng.random() < 0.3 if want_children is None else want_children
     null_tags = (not for_order) and rng.random() < 0.3
     # a template shared by most fits, so that the same paths exist with different values
-    template = [[nm, gen_obj(rng, rng.randint(0, 3))] for nm in rng.sample(NAMES, rng.randint(2, 4))]
+    template = [[nm, gen_obj(rng, rng.randint(0, 3), dom)] for nm in rng.sample(dom["names"], rng.randint(2, 4))]
 
     def vary(o):
         if "cls" not in o:
-            return gen_leaf(rng) if rng.random() < 0.6 else o
+            return gen_leaf(rng, dom) if rng.random() < 0.6 else o
         if rng.random() < 0.12:
-            return gen_obj(rng, 2)
+            return gen_obj(rng, 2, dom)
         cls = o["cls"]
         if cls in CLS and rng.random() < 0.35:
             cls = rng.choice(CLS)
@@ -92,7 +140,7 @@ def gen_db(rng, thorough, want_children=None, for_order=False):
         if rng.random() < 0.75:
             kids = [[nm, vary(c)] for nm, c in template]
         else:
-            kids = [[nm, gen_obj(rng, rng.randint(0, 3))] for nm in rng.sample(NAMES, rng.randint(1, 4))]
+            kids = [[nm, gen_obj(rng, rng.randint(0, 3), dom)] for nm in rng.sample(dom["names"], rng.randint(1, 4))]
         info = {}
         for k in INFO_KEYS:
             if rng.random() < 0.5:
@@ -108,10 +156,11 @@ def gen_db(rng, thorough, want_children=None, for_order=False):
             "path_prefix": rng.choice(PREFIXES),
             "is_complete": rng.random() < 0.6,
             "is_grid_search": (i == 0 and children) or rng.random() < 0.15,
-            "mll": rng.choice([-16, -4, 0, 4, 8, 20, 24]),
+            "mll": rng.choice(MLLS),
             "info": info,
             "parent": parent,
         })
+    _DOMS[id(fits)] = dom
     return fits
 
 
@@ -125,29 +174,29 @@ def all_paths(o, prefix=()):
     return out
 
 
-def gen_const_for(rng, node):
+def gen_const_for(rng, node, dom):
     r = rng.random()
     if node is not None and r < 0.75:
         if "v" in node:
-            return {"n": node["v"] if rng.random() < 0.7 else rng.choice(VALS)}
+            return {"n": node["v"] if rng.random() < 0.7 else rng.choice(dom["nums"])}
         if "s" in node:
-            return {"s": node["s"] if rng.random() < 0.7 else rng.choice(STRS)}
+            return {"s": node["s"] if rng.random() < 0.7 else rng.choice(dom["strs"])}
         if "none" in node:
             return {"none": 1}
         return {"t": node["cls"] if node["cls"] != "Root" else "A"}
     r = rng.random()
     if r < 0.5:
-        return {"n": rng.choice(VALS)}
+        return {"n": rng.choice(dom["nums"])}
     if r < 0.7:
-        return {"s": rng.choice(STRS)}
+        return {"s": rng.choice(dom["strs"])}
     if r < 0.82:
         return {"none": 1}
     return {"t": rng.choice(CLS + ["list", "tuple"])}
 
 
-def gen_cmp(rng, pool):
+def gen_cmp(rng, pool, dom):
     path, node = rng.choice(pool)
-    c = gen_const_for(rng, node)
+    c = gen_const_for(rng, node, dom)
     if ("n" in c or "s" in c) and rng.random() < 0.4:
         sym = rng.choice(SYMS[1:])
     else:
@@ -157,25 +206,46 @@ def gen_cmp(rng, pool):
     return ["cmp", list(path), sym, c]
 
 
+def mangle(rng, t):
+    """upper-case a letter or put a LIKE wildcard in place of a character (LIKE then differs from `in`)."""
+    if not t:
+        return t
+    i = rng.randrange(len(t))
+    r = rng.random()
+    if r < 0.5:
+        return t[:i] + t[i].swapcase() + t[i + 1:]
+    if r < 0.8:
+        return t[:i] + "_" + t[i + 1:]
+    return t[:i] + "%" + t[i + 1:]
+
+
 def gen_attr(rng, db):
     f = rng.choice(db)
     r = rng.random()
-    if r < 0.3:
+    if r < 0.27:
         attr = rng.choice(["name", "unique_tag", "path_prefix"])
-        v = f[attr] if rng.random() < 0.7 else rng.choice(FIT_NAMES + TAGS)
+        v = f[attr] if rng.random() < 0.7 else rng.choice(FIT_NAMES + TAGS + ["it's"])
         return ["attr_eq", attr, v]
-    if r < 0.4:
-        return ["attr_eqn", "max_log_likelihood", f["mll"] if rng.random() < 0.7 else 4]
+    if r < 0.37:
+        return ["attr_eqn", "max_log_likelihood", f["mll"] if rng.random() < 0.7 else rng.choice(MLLS)]
     if r < 0.6:
-        attr = rng.choice(["name", "path_prefix"])
-        s = f[attr]
-        i = rng.randint(0, len(s) - 1)
-        j = rng.randint(i + 1, len(s))
-        return ["attr_contains", attr, s[i:j] if rng.random() < 0.8 else "zz"]
-    if r < 0.7:
-        attr = rng.choice(["name", "unique_tag"])
+        attr = rng.choice(["name", "path_prefix", "unique_tag"])
+        t = f[attr] or "t1"
+        i = rng.randint(0, len(t) - 1)
+        j = rng.randint(i + 1, len(t))
+        sub = t[i:j] if rng.random() < 0.8 else "zz"
+        if rng.random() < 0.12:
+            sub = mangle(rng, sub)
+        return ["attr_contains", attr, sub]
+    if r < 0.72:
+        attr = rng.choice(["name", "unique_tag", "path_prefix"])
         v = f[attr] or "t9"
-        return ["attr_in", attr, rng.choice(["", "q"]) + v + rng.choice(["", "z", "fit"])]
+        hay = rng.choice(["", "q"]) + v + rng.choice(["", "z", "fit"])
+        if rng.random() < 0.12:
+            hay = mangle(rng, hay)
+        return ["attr_in", attr, hay]
+    if r < 0.82:
+        return ["attr_eqb", rng.choice(["is_complete", "is_grid_search"]), rng.random() < 0.5]
     return ["attr_bool", rng.choice(["is_complete", "is_grid_search"])]
 
 
@@ -192,7 +262,7 @@ def gen_pred(rng, db, depth, pool, style):
     if depth <= 0 or rng.random() < 0.25:
         r = rng.random()
         if r < 0.7:
-            return gen_cmp(rng, pool)
+            return gen_cmp(rng, pool, dom_of(db))
         if r < 0.88:
             return gen_attr(rng, db)
         return gen_info(rng, db)
@@ -217,10 +287,12 @@ def gen_algebraic(rng, db, pool):
     objects (x vs ~x), flattening of nested junctions and the merge by name."""
     def leaf(neg_ok=False):
         r = rng.random()
-        if neg_ok and r < 0.4:
-            return gen_none_cmp(rng, pool)       # negation of these survives the junction in the current code
-        if neg_ok and r < 0.8:
+        if neg_ok and r < 0.2:
+            return gen_none_cmp(rng, pool)
+        if neg_ok and r < 0.45:
             return gen_attr(rng, db)
+        if neg_ok and r < 0.9:
+            return gen_cmp(rng, pool, dom_of(db))   # x | ~x, ~x & ~y on paths that get merged by name
         return gen_pred(rng, db, 0, pool, "tame")
     t = rng.randint(0, 9)
     if t == 0:
@@ -265,7 +337,7 @@ def make_pool(rng, db, maxlen=3):
         if existing and rng.random() < 0.85:
             pool.append(rng.choice(existing))
         else:
-            pool.append((tuple(rng.choice(NAMES) for _ in range(rng.randint(1, 3))), None))
+            pool.append((tuple(rng.choice(dom_of(db)["names"]) for _ in range(rng.randint(1, 3))), None))
     # deliberately: siblings and extensions of pooled paths, so that name merges happen at every depth
     for path, node in list(pool):
         if rng.random() < 0.5 and len(path) > 1:
@@ -302,78 +374,162 @@ def ill_formed(p):
     return False
 
 
+BROAD = [["attr_contains", "path_prefix", "p"], ["attr_contains", "path_prefix", "o"], ["attr_contains", "name", "i"],
+         ["attr_contains", "name", "r"], ["or", ["attr_bool", "is_complete"], ["attr_contains", "name", "f"]],
+         ["attr_in", "path_prefix", "zp/qout"], ["attr_eqb", "is_complete", True]]
+ORDER_ATTRS = ["name", "path_prefix", "max_log_likelihood", "is_complete", "is_grid_search", "unique_tag"]
+
+
+def gen_slice(rng, n, open_prob=0.45):
+    def idx():
+        return None if rng.random() < 0.35 else rng.randint(-n - 2, n + 2)
+    if rng.random() < open_prob:
+        return [idx(), None]
+    return [idx(), idx()]
+
+
+def gen_ops(rng, db, pred, make_pred):
+    """query / order_by / slice in any order.  The order is made total (order_by id) before the first slice
+    and before the end, so that list positions are determined."""
+    n = len(db)
+    ops = []
+    if rng.random() < 0.8:
+        ops.append(["query", pred])
+    for a in rng.sample(ORDER_ATTRS, rng.randint(0, 2)):
+        ops.append(["order", a, rng.random() < 0.4])
+    ops.append(["order", "id", rng.random() < 0.3])
+    for _ in range(rng.choice([0, 1, 1, 2, 2, 3])):
+        r = rng.random()
+        if r < 0.55:
+            start, stop = gen_slice(rng, n, 0.3)
+            step = None
+            if rng.random() < 0.2:
+                step = rng.choice([1, 2, 2, 3, -1, -1, -2])
+            ops.append(["slice", start, stop, step])
+        elif r < 0.78:
+            ops.append(["order", rng.choice(ORDER_ATTRS + ["id"]), rng.random() < 0.5])
+        else:
+            ops.append(["query", make_pred()])
+    return ops
+
+
 def gen_cases(ctx):
     rng = ctx.rng
     thorough = ctx.tier == "thorough"
-    n_db = 220 if thorough else 54
+    n_db = 330 if thorough else 110
     per_db = 16 if thorough else 12
     cases = []
     for d in range(n_db):
         for_order = rng.random() < 0.5
         db = gen_db(rng, thorough, for_order=for_order)
-        for j in range(per_db):
+
+        def make_pred(maxdepth=None):
             pool = make_pool(rng, db, 4 if thorough and rng.random() < 0.3 else 3)
-            style = "tame" if rng.random() < 0.6 else "free"
-            depth = rng.choice([0, 1, 1, 2, 2, 3, 3, 4] + ([5] if thorough else []))
-            pred = gen_pred(rng, db, depth, pool, style)
-            if rng.random() < 0.18:
+            style = "tame" if rng.random() < 0.5 else "free"
+            depth = rng.choice([0, 1, 1, 2, 2, 2, 3, 3, 3, 4, 4] + ([5] if thorough else []))
+            if maxdepth is not None:
+                depth = min(depth, maxdepth)
+            pred = gen_pred(rng, db, depth, pool, style) if depth == 0 else \
+                [rng.choice(["and", "or"]), gen_pred(rng, db, depth - 1, pool, style), gen_pred(rng, db, depth - 1, pool, style)] \
+                if rng.random() < 0.8 else gen_pred(rng, db, depth, pool, style)
+            if rng.random() < 0.2:
                 pred = gen_algebraic(rng, db, pool)
             if rng.random() < 0.02:
                 # an ill-formed comparison: the code must reject it
                 path, _ = rng.choice(pool)
                 pred = ["and", pred, ["cmp", list(path), rng.choice(SYMS[1:]), rng.choice([{"none": 1}, {"t": "A"}])]]
+            return pred
+
+        for j in range(per_db):
+            pred = make_pred()
             if for_order and j % 2 == 0:
                 if rng.random() < 0.45:
                     # a broad selection, so that ordering and slicing have something to work on
-                    pred = rng.choice([["attr_contains", "path_prefix", rng.choice(["p", "o", "u"])],
-                                       ["attr_contains", "name", rng.choice(["i", "r", "a"])],
-                                       ["or", ["attr_bool", "is_complete"], ["attr_contains", "name", "f"]],
-                                       ["attr_in", "path_prefix", "zp/qout"]])
-                attrs = ["name", "path_prefix", "max_log_likelihood", "is_complete", "is_grid_search", "unique_tag"]
-                keys = [[a, rng.random() < 0.4] for a in rng.sample(attrs, rng.randint(0, 2))]
-                keys.append(["id", rng.random() < 0.3])
+                    pred = rng.choice(BROAD)
                 n = len(db)
-                slices = []
-                for _ in range(rng.choice([0, 1, 1, 1, 2])):
-                    def idx():
-                        return None if rng.random() < 0.35 else rng.randint(-n - 2, n + 2)
-                    if rng.random() < 0.45:
-                        slices.append([idx(), None])          # the form the code supports
-                    else:
-                        slices.append([idx(), idx()])
-                cases.append({"kind": "order", "db": db, "pred": pred, "top_only": rng.random() < 0.5,
-                              "keys": keys, "slices": slices, "index": rng.randint(-n, n - 1)})
+                if j % 4 == 0:
+                    keys = [[a, rng.random() < 0.4] for a in rng.sample(ORDER_ATTRS, rng.randint(0, 2))]
+                    keys.append(["id", rng.random() < 0.3])
+                    slices = [gen_slice(rng, n) for _ in range(rng.choice([0, 1, 1, 1, 2]))]
+                    cases.append({"kind": "order", "db": db, "pred": pred, "top_only": rng.random() < 0.5,
+                                  "keys": keys, "slices": slices, "index": rng.randint(-n, n - 1)})
+                else:
+                    cases.append({"kind": "ops", "db": db, "top_only": rng.random() < 0.5,
+                                  "ops": gen_ops(rng, db, pred, lambda: make_pred(2) if rng.random() < 0.5 else rng.choice(BROAD)),
+                                  "index": rng.randint(-n, n - 1)})
             else:
                 cases.append({"kind": "query", "db": db, "pred": pred, "top_only": rng.random() < 0.5,
                               "chain": pred[0] == "and" and rng.random() < 0.4})
     return cases
 
 
+def case_preds(c):
+    if c["kind"] == "ops":
+        return [o[1] for o in c["ops"] if o[0] == "query"]
+    return [c["pred"]]
+
+
 # ---------------------------------------------------------------------------
 # Coq printers
 # ---------------------------------------------------------------------------
 
-def c_obj(o):
+def numbers_of_obj(o, acc):
     if "v" in o:
-        return "(OVal %s)" % cZ(o["v"])
+        acc.append(o["v"])
+    for _, c in o.get("kids", []):
+        numbers_of_obj(c, acc)
+
+
+def numbers_of_pred(p, acc):
+    t = p[0]
+    if t == "cmp" and "n" in p[3]:
+        acc.append(p[3]["n"])
+    elif t == "ne" and "n" in p[2]:
+        acc.append(p[2]["n"])
+    elif t == "attr_eqn":
+        acc.append(p[2])
+    elif t in ("and", "or"):
+        numbers_of_pred(p[1], acc)
+        numbers_of_pred(p[2], acc)
+    elif t == "not":
+        numbers_of_pred(p[1], acc)
+
+
+def make_rank(c):
+    """Order-isomorphic abstraction of the numbers of a case: value -> its rank among the distinct values
+    (exact comparison through Fraction, so 0.1, 1e-07, 10**20, True, 1 and 1.0 are all handled exactly)."""
+    acc = []
+    for f in c["db"]:
+        numbers_of_obj(f["inst"], acc)
+        acc.append(f["mll"])
+    for p in case_preds(c):
+        numbers_of_pred(p, acc)
+    vals = sorted(set(Fraction(x) for x in acc))
+    index = {v: i for i, v in enumerate(vals)}
+    return lambda x: index[Fraction(x)]
+
+
+def c_obj(o, rk):
+    if "v" in o:
+        return "(OVal %s)" % cZ(rk(o["v"]))
     if "s" in o:
         return "(OStr %s)" % cstr(o["s"])
     if "none" in o:
         return "ONone"
-    return "(OInst %s %s)" % (cstr(class_path(o["cls"])), clist([cpair(cstr(n), c_obj(c)) for n, c in o["kids"]]))
+    return "(OInst %s %s)" % (cstr(class_path(o["cls"])), clist([cpair(cstr(n), c_obj(c, rk)) for n, c in o["kids"]]))
 
 
-def c_fit(f):
+def c_fit(f, rk):
     strs = clist([cpair(cstr(a), copt(f[a], cstr)) for a in ("name", "unique_tag", "path_prefix")])
-    nums = clist([cpair(cstr("max_log_likelihood"), cZ(f["mll"]))])
+    nums = clist([cpair(cstr("max_log_likelihood"), cZ(rk(f["mll"])))])
     bools = clist([cpair(cstr(a), cbool(f[a])) for a in ("is_complete", "is_grid_search")])
     info = clist([cpair(cstr(k), cstr(v)) for k, v in f["info"].items()])
-    return "(mkFit %s %s %s %s %s %s %s)" % (cstr(f["id"]), c_obj(f["inst"]), strs, nums, bools, info, cbool(f["parent"] is not None))
+    return "(mkFit %s %s %s %s %s %s %s)" % (cstr(f["id"]), c_obj(f["inst"], rk), strs, nums, bools, info, cbool(f["parent"] is not None))
 
 
-def c_const(c):
+def c_const(c, rk):
     if "n" in c:
-        return "(KNum %s)" % cZ(c["n"])
+        return "(KNum %s)" % cZ(rk(c["n"]))
     if "s" in c:
         return "(KStr %s)" % cstr(c["s"])
     if "none" in c:
@@ -381,16 +537,18 @@ def c_const(c):
     return "(KType %s)" % cstr(class_path(c["t"]))
 
 
-def c_pred(p):
+def c_pred(p, rk):
     t = p[0]
     if t == "cmp":
-        return "(PCmp %s %s %s)" % (clist([cstr(n) for n in p[1]]), CMP_COQ[p[2]], c_const(p[3]))
+        return "(PCmp %s %s %s)" % (clist([cstr(n) for n in p[1]]), CMP_COQ[p[2]], c_const(p[3], rk))
     if t == "ne":
-        return "(PNot (PCmp %s CEq %s))" % (clist([cstr(n) for n in p[1]]), c_const(p[2]))
+        return "(PNot (PCmp %s CEq %s))" % (clist([cstr(n) for n in p[1]]), c_const(p[2], rk))
     if t == "attr_eq":
         return "(PAttr (AEqS %s %s))" % (cstr(p[1]), copt(p[2], cstr))
     if t == "attr_eqn":
-        return "(PAttr (AEqN %s %s))" % (cstr(p[1]), cZ(p[2]))
+        return "(PAttr (AEqN %s %s))" % (cstr(p[1]), cZ(rk(p[2])))
+    if t == "attr_eqb":
+        return "(PAttr (AEqB %s %s))" % (cstr(p[1]), cbool(p[2]))
     if t == "attr_contains":
         return "(PAttr (AContains %s %s))" % (cstr(p[1]), cstr(p[2]))
     if t == "attr_in":
@@ -400,78 +558,126 @@ def c_pred(p):
     if t == "info":
         return "(PInfo %s %s)" % (cstr(p[1]), cstr(p[2]))
     if t == "and":
-        return "(PAnd %s %s)" % (c_pred(p[1]), c_pred(p[2]))
+        return "(PAnd %s %s)" % (c_pred(p[1], rk), c_pred(p[2], rk))
     if t == "or":
-        return "(POr %s %s)" % (c_pred(p[1]), c_pred(p[2]))
+        return "(POr %s %s)" % (c_pred(p[1], rk), c_pred(p[2], rk))
     if t == "not":
-        return "(PNot %s)" % c_pred(p[1])
+        return "(PNot %s)" % c_pred(p[1], rk)
     raise ValueError(t)
+
+
+def c_okey(attr):
+    if attr == "id":
+        return "OIdKey"
+    if attr == "max_log_likelihood":
+        return "(ONumKey %s)" % cstr(attr)
+    if attr in ("is_complete", "is_grid_search"):
+        return "(OBoolKey %s)" % cstr(attr)
+    return "(OStrKey %s)" % cstr(attr)
 
 
 def c_key(k):
     attr, rev = k
-    if attr == "id":
-        kk = "OIdKey"
-    elif attr == "max_log_likelihood":
-        kk = "(ONumKey %s)" % cstr(attr)
-    elif attr in ("is_complete", "is_grid_search"):
-        kk = "(OBoolKey %s)" % cstr(attr)
-    else:
-        kk = "(OStrKey %s)" % cstr(attr)
-    return cpair(kk, cbool(rev))
+    return cpair(c_okey(attr), cbool(rev))
 
 
-EXC = {"AssertionError": "EAssertion", "TypeError": "ETypeError"}
+def c_op(o, rk):
+    if o[0] == "query":
+        return "(OQuery %s)" % c_pred(o[1], rk)
+    if o[0] == "order":
+        return "(OOrder %s %s)" % (c_okey(o[1]), cbool(o[2]))
+    return "(OSlice %s %s %s)" % (copt(o[1], cZ), copt(o[2], cZ), copt(o[3], cZ))
 
 
-def c_outcome(r):
+def has_shadow(p):
+    t = p[0]
+    if t == "cmp" or t == "ne":
+        return any(n in ("name", "condition", "query", "tables", "fit_query", "tables_string", "other_condition") for n in p[1][1:])
+    if t in ("and", "or"):
+        return has_shadow(p[1]) or has_shadow(p[2])
+    if t == "not":
+        return has_shadow(p[1])
+    return False
+
+
+def c_outcome(c, r):
+    """(exception class, stage) -> the model's error token; anything unexpected never matches (EFuel)."""
     if "exc" in r:
-        return "(RExc %s)" % EXC.get(r["exc"], "EFuel")   # an unexpected exception never matches the model
+        if any(has_shadow(p) for p in case_preds(c)):
+            return "(RExc EShadow)"        # whatever the non-query object made of the predicate raised
+        tok = {("AssertionError", "construct"): "EAssertion", ("TypeError", "construct"): "ETypeError",
+               ("OperationalError", "execute"): "ESql"}.get((r["exc"], r.get("stage")), "EFuel")
+        return "(RExc %s)" % tok
     return "(RIds %s)" % clist([cstr(i) for i in r["ids"]])
 
 
 def coq_case(c, r):
-    db = clist([c_fit(f) for f in c["db"]])
+    rk = make_rank(c)
+    db = clist([c_fit(f, rk) for f in c["db"]])
     if c["kind"] == "query":
-        return "CQuery %s %s %s %s" % (db, c_pred(c["pred"]), cbool(c["top_only"]), c_outcome(r))
-    return "COrder %s %s %s %s %s %s" % (
-        db, c_pred(c["pred"]), cbool(c["top_only"]), clist([c_key(k) for k in c["keys"]]),
-        clist([cpair(copt(a, cZ), copt(b, cZ)) for a, b in c["slices"]]), c_outcome(r))
+        return "CQuery %s %s %s %s" % (db, c_pred(c["pred"], rk), cbool(c["top_only"]), c_outcome(c, r))
+    if c["kind"] == "order":
+        return "COrder %s %s %s %s %s %s" % (
+            db, c_pred(c["pred"], rk), cbool(c["top_only"]), clist([c_key(k) for k in c["keys"]]),
+            clist([cpair(copt(a, cZ), copt(b, cZ)) for a, b in c["slices"]]), c_outcome(c, r))
+    idx = "None"
+    if "index_id" in r:
+        idx = "(Some %s)" % cpair(cZ(c["index"]), cstr(r["index_id"]))
+    return "COps %s %s %s %s %s %s" % (db, cbool(c["top_only"]), clist([c_op(o, rk) for o in c["ops"]]),
+                                       c_outcome(c, r), cZ(r.get("len", 0)), idx)
 
 
 def coq_map_cases(prop, header, fn, cases, rundir, tag="labels", shard=40, timeout=600):
-    """Evaluate `map fn cases : list N` inside Coq; returns the list of ints or None."""
+    """Evaluate `map fn cases : list N` inside Coq; returns (list of ints, "") or (None, log).
+    Every shard is always reaped; a failed / timed-out shard is retried once alone with a longer timeout."""
     os.makedirs(rundir, exist_ok=True)
     shards = [cases[i:i + shard] for i in range(0, len(cases), shard)] or [[]]
-    procs = []
+    files = []
     for si, sc in enumerate(shards):
         vf = os.path.join(rundir, "%s_%s_%d.v" % (tag, prop, si))
         with open(vf, "w") as f:
             f.write(header + "\n")
             f.write("Definition the_cases : list case :=\n [\n  " + ";\n  ".join(sc) + "\n ].\n")
             f.write('Redirect "%s/%s_%s_%d" Eval vm_compute in (map %s the_cases).\n' % (rundir, tag, prop, si, fn))
-        procs.append((si, vf))
-    out = []
+        files.append(vf)
+
+    def launch(vf, tmo):
+        return subprocess.Popen(["bash", "-c", "exec timeout %d coqc %s %s" % (tmo, " ".join(common.coq_flags(prop)), vf)],
+                                stdout=subprocess.PIPE, stderr=subprocess.STDOUT, text=True)
+
+    def read(si):
+        path = os.path.join(rundir, "%s_%s_%d.out" % (tag, prop, si))
+        if not os.path.exists(path):
+            return None
+        m = re.search(r"=\s*(.*?)\s*:\s*list N", open(path).read(), re.S)
+        if not m:
+            return None
+        vals = [int(x) for x in re.findall(r"(\d+)%N", m.group(1))]
+        return vals if len(vals) == len(shards[si]) else None
+
+    results, logs, failed = {}, {}, []
+    pending = list(enumerate(files))
     running = []
-    pending = list(procs)
-    results = {}
     while pending or running:
         while pending and len(running) < common.NCPU:
             si, vf = pending.pop(0)
-            p = subprocess.Popen(["bash", "-c", "exec timeout %d coqc %s %s" % (timeout, " ".join(common.coq_flags(prop)), vf)],
-                                 stdout=subprocess.PIPE, stderr=subprocess.STDOUT, text=True)
-            running.append((si, p))
+            running.append((si, launch(vf, timeout)))
         si, p = running.pop(0)
         log, _ = p.communicate()
-        if p.returncode != 0:
-            return None, log[-2000:]
-        txt = open(os.path.join(rundir, "%s_%s_%d.out" % (tag, prop, si))).read()
-        m = re.search(r"=\s*(.*?)\s*:\s*list N", txt, re.S)
-        if not m:
-            return None, txt[:500]
-        results[si] = [int(x) for x in re.findall(r"(\d+)%N", m.group(1))]
-        if len(results[si]) != len(shards[si]):
-            return None, "shard %d: %d labels for %d cases" % (si, len(results[si]), len(shards[si]))
+        vals = read(si) if p.returncode == 0 else None
+        if vals is None:
+            failed.append(si)
+            logs[si] = "shard %d rc=%s %s" % (si, p.returncode, (log or "")[-800:])
+        else:
+            results[si] = vals
+    for si in failed:                      # one retry, alone, with a longer timeout (busy machine)
+        p = launch(files[si], timeout * 2)
+        log, _ = p.communicate()
+        vals = read(si) if p.returncode == 0 else None
+        if vals is None:
+            return None, logs[si] + "\nretry rc=%s %s" % (p.returncode, (log or "")[-800:])
+        results[si] = vals
+    out = []
     for si in range(len(shards)):
         out += results[si]
     return out, ""
@@ -491,7 +697,7 @@ def abstract_of_dump(t):
 
 def expected_dump(o):
     if "v" in o:
-        return {"v": o["v"] / 8.0}
+        return {"v": float(o["v"])}          # ints and bools are stored in the Float column of `value`
     if "cls" not in o:
         return o
     return {"class_path": class_path(o["cls"]), "kids": sorted([[n, expected_dump(c)] for n, c in o["kids"]], key=lambda kv: kv[0])}
@@ -511,7 +717,7 @@ def check_dump(c, dump):
         for a in ("name", "unique_tag", "path_prefix", "is_complete", "is_grid_search", "parent", "info"):
             if d[a] != f[a]:
                 return "stored %s of %s is %r, expected %r" % (a, f["id"], d[a], f[a])
-        if d["mll"] != f["mll"] / 8.0:
+        if d["mll"] != float(f["mll"]):
             return "stored max_log_likelihood differs"
     return None
 
@@ -581,7 +787,19 @@ def oracle(c, r):
 
 
 def slice_classes(c):
+    """classes of the repaired slicing defects (kept: a regression of 127fbf4 would be matched by nothing, since
+    those findings are `fixed`) and of the live ones of op sequences; computed from the case only."""
     out = []
+    if c["kind"] == "ops":
+        seen_slice = False
+        for o in c["ops"]:
+            if o[0] == "slice":
+                seen_slice = True
+                if o[3] not in (None, 1):
+                    out.append("slice-step-ignored")
+            elif seen_slice:
+                out.append("slice-lost-by-later-operation")
+        return sorted(set(out))
     if c["kind"] != "order" or not c["slices"]:
         return out
     if any(b is not None for a, b in c["slices"]):
@@ -593,7 +811,57 @@ def slice_classes(c):
     return out
 
 
+def ops_oracle(c, r):
+    """An aggregator is used like a list: query = filter, order_by = sort by all keys so far (first key first),
+    slice = list slicing including the step.  Returns None or (message, slice_related)."""
+    preds = case_preds(c)
+    top = [f["id"] for f in c["db"] if f["parent"] is None or not c["top_only"]]
+    if "exc" in r:
+        if any(ill_formed(p) for p in preds) and r["exc"] == "AssertionError":
+            return None
+        return ("operation sequence raised %s (%s) at %s" % (r["exc"], r.get("msg", "")[:80], r.get("stage")), False)
+    if any(ill_formed(p) for p in preds):
+        return ("an inequality against None / a type was accepted", False)
+    by_id = {f["id"]: f for f in c["db"]}
+
+    def keyval(fid, attr):
+        f = by_id[fid]
+        return fid if attr == "id" else f["mll"] if attr == "max_log_likelihood" else f[attr]
+    cur, keys, k = list(top), [], 0
+    sel_only = list(top)                    # the selection alone, for classifying a failure
+    for o in c["ops"]:
+        if o[0] == "query":
+            ok = set(r["direct_ops"][k])
+            k += 1
+            cur = [i for i in cur if i in ok]
+            sel_only = [i for i in sel_only if i in ok]
+        elif o[0] == "order":
+            keys.append((o[1], o[2]))
+            for attr, rev in reversed(keys):
+                cur.sort(key=lambda i: keyval(i, attr), reverse=rev)
+                if rev:        # Python's reverse sort keeps the original order of equal keys; ORDER BY ... DESC too
+                    pass
+        else:
+            cur = cur[slice(o[1], o[2], o[3])]
+    ids = r["ids"]
+    if len(set(ids)) != len(ids):
+        return ("a fit is returned more than once: %s" % ids, False)
+    sliced = any(o[0] == "slice" for o in c["ops"])
+    if not sliced and sorted(ids) != sorted(cur):
+        return ("operations %s return %s, expected %s" % (c["ops"], sorted(ids), sorted(cur)), False)
+    if ids != cur:
+        return ("operations %s return %s, expected %s" % ([o if o[0] != "query" else "query" for o in c["ops"]], ids, cur),
+                set(ids) <= set(sel_only) or not sliced)
+    if r.get("len") != len(ids) or r.get("iter_ids") != ids:
+        return ("len() / iteration differ from .fits", True)
+    if "index_id" in r and r["index_id"] != ids[c["index"]]:
+        return ("integer index returns another fit", True)
+    return None
+
+
 def nontrivial(c, r):
+    if c["kind"] == "ops":
+        return len(c["ops"]) >= 3 and len(r.get("ids", [])) > 0
     n_direct = len(r.get("direct", []))
     return has_connective(c["pred"]) and 0 < n_direct < len(c["db"])
 
